@@ -49,7 +49,7 @@ func c15Stacks() []c15Stack {
 	var out []c15Stack
 	for _, leaf := range []string{"FS", "SQL"} {
 		out = append(out, c15Stack{Leaf: leaf})
-		for _, a := range []string{"Z", "E", "EC", "CA", "CAs", "OB"} {
+		for _, a := range []string{"Z", "E", "EC", "EC32", "CA", "CAs", "OB"} {
 			out = append(out, c15Stack{MWs: []string{a}, Leaf: leaf})
 		}
 		for _, a := range c15MWs {
